@@ -167,7 +167,9 @@ class Interp:
                 return self.ev(t[2][0])
             if not t[2]:
                 return 0
-            raise Unknown("aggregate initialiser")
+            return tuple(self.ev(x) for x in t[2])
+        if k == "stdinitlist":
+            return self.ev(t[1])
         if k == "zero":
             return 0
         if k in ("call", "mcall", "opcall", "ctor", "icall"):
